@@ -37,6 +37,12 @@ size_t gp;      /* ghost first-difference index (C19)  */
 /* ---- std:: helpers mapped 1:1 ----------------------------------------- */
 #define OP2_SWAP(a, b) do { __typeof__(a) op2_swap_tmp = (a); (a) = (b); (b) = op2_swap_tmp; } while (0)
 #define OP2_UMAX_OF_EXPR(x) ((__typeof__(x))~(__typeof__(x))0)      /* std::numeric_limits<decltype(x)>::max(), unsigned x */
+#define OP2_MAX_uint8_t  UINT8_MAX
+#define OP2_MAX_uint16_t UINT16_MAX
+#define OP2_MAX_uint32_t UINT32_MAX
+#define OP2_MAX_uint64_t UINT64_MAX
+#define OP2_MAX_size_t   SIZE_MAX
+#define OP2_MAX_int32_t  INT32_MAX
 #define OP2_MIN(a, b) ((a) < (b) ? (a) : (b))
 
 /* 128-bit helpers so that specifications cannot wrap */
